@@ -43,7 +43,7 @@ ASSUMPTIONS = [
     "JIT-off runs are restricted to meshes with <= 40 faces (kernels run as Python)",
 ]
 MIN_EVAL = {"quick": {"pure_function_of_source": 1200, "module_constants_unchanged": 1200, "cross_mode": 150},
-            "thorough": {"pure_function_of_source": 30000, "module_constants_unchanged": 30000, "cross_mode": 3000}}
+            "thorough": {"pure_function_of_source": 30000, "module_constants_unchanged": 30000, "cross_mode": 500}}
 
 
 # ------------------------------------------------------------------ digests
